@@ -74,7 +74,27 @@ func init() {
 			p.POutage, p.OutageMax = []float64{0.05, 0.2}[rng.Intn(2)], 1+rng.Intn(8)
 			p.PriceStep = []int{50, 300}[rng.Intn(2)]
 			p.AvgPeriod = []uint64{6, 12}[rng.Intn(2)]
+			if rng.Intn(2) == 0 {
+				// a holder-snapshot height inside the chain (rates are looked up for
+				// the payout there even when the block itself is ungraded)
+				p.StartEra = []int{eraV20, eraV202, eraPIP10}[rng.Intn(3)]
+				after := 12 + rng.Intn(30)
+				alignSnapshots(&p, rng, after)
+				p.Blocks = after + 6 + rng.Intn(25)
+			}
 			return p
+		},
+		extra: func(rng *rand.Rand, g *world.Gen) func(uint32, *world.BlockSpec) {
+			cm := conversionMatrix(rng, g)
+			return func(h uint32, bs *world.BlockSpec) {
+				// conversions pending across snapshot heights, which are often ungraded
+				if (h+2)%144 <= 2 {
+					cm(h, bs)
+				}
+				if h%144 == 0 && rng.Intn(2) == 0 {
+					bs.OPR, bs.SPR = nil, nil
+				}
+			}
 		},
 		final:      conversionValueBound,
 		nontrivial: func(w *world.World, l *model.Ledger) []string { return causeKeys(l, model.CConv) },
